@@ -3,7 +3,7 @@
    For each of the ten types the corpus holds 0, 1, 2, EVERY power of ten that fits and its two neighbours,
    2^k and its neighbours for k = 7, 8, 15, 16, 31, 32, 63, 64 (so every type's minimum and maximum and the
    maxima of the narrower types), all with both signs where the type is signed, plus NRand seeded random
-   magnitudes per type.  The value is GIVEN as its decimal digits; the spec computes the machine value
+   magnitudes per type, and every value of the two 8-bit types.  The value is GIVEN as its decimal digits; the spec computes the machine value
    (limbs, two's complement) by Horner, recomputes the digits from the limbs by long division, and the
    length from the powers of ten - the three must agree (invariants below). *)
 EXTENDS Num2Str, TextRand, TLC, Json, IOUtils
@@ -23,7 +23,9 @@ TwoSet == UNION { { ToDigits(Pow2L(k), 10), ToDigits(Dec1(Pow2L(k)), 10), ToDigi
 MaxLenOf(t) == Len(ToDigits(MaxMag(t, FALSE), 10))
 RandSet(t) == { RandDigits(Mix(Seed, 1000 * t + i), 1 + (Mix(Seed, 1000 * t + 500 + i) % MaxLenOf(t)))
                 : i \in 1..NRand }
-Cands(t) == PowSet \cup TwoSet \cup RandSet(t)
+\* the 8-bit types are small enough to take every value
+Small(t) == IF TypeBits[t] = 8 THEN { ToDigits(<< k, 0, 0, 0, 0 >>, 10) : k \in 0..255 } ELSE { }
+Cands(t) == PowSet \cup TwoSet \cup RandSet(t) \cup Small(t)
 Cases == UNION { { x \in { [t |-> t, neg |-> n, d |-> d] : n \in BOOLEAN, d \in Cands(t) } :
                    InType(x.t, x.neg, FromDigits(x.d, 10)) } : t \in 1..10 }
 
